@@ -1,12 +1,14 @@
 #!/bin/bash
-# usage: try_patch_scratch.sh <patch.diff> <prop>...  — applies a patch to a scratch copy of /repo/src and runs the quick
-# checks on it (VERIF_REPO); /repo itself is not touched.  Witness replay runs against /repo (unchanged).
+# usage: try_patch_scratch.sh <patch.diff> <prop>...  — applies a patch to a scratch copy of the crate (src, Cargo.toml,
+# Cargo.lock) and runs the quick checks on it (VERIF_REPO); /repo itself is not touched.  The witness crate is built
+# against the scratch copy too (lib/witness.py), so a failing input is searched for on the patched code.
 P=$1; shift
-S=/tmp/patchrepo_$$; rm -rf $S; mkdir -p $S; cp -r /repo/src $S/src; cp /repo/Cargo.toml /repo/Cargo.lock $S/ 2>/dev/null
+S=/tmp/patchrepo_$$; rm -rf $S; mkdir -p $S; B=${VERIF_BASE:-/repo}; cp -r $B/src $S/src; cp $B/Cargo.toml $B/Cargo.lock $S/ 2>/dev/null
 (cd $S && patch -s -p1 < $P) || { echo "patch failed"; rm -rf $S; exit 2; }
+W=${VERIF_WORK:-/tmp/patchwork_$$}
 for p in "$@"; do
-  VERIF_REPO=$S VERIF_NO_EVIDENCE=1 /verif/check $p --tier quick > /tmp/patchscr_$$_$p.txt 2>&1; rc=$?
+  VERIF_REPO=$S VERIF_NO_EVIDENCE=1 VERIF_WORK=$W /verif/check $p --tier quick > /tmp/patchscr_$$_$p.txt 2>&1; rc=$?
   echo "$(basename $(dirname $P)) $p rc=$rc $(grep -E 'VIOLATION|TOOL-FAILURE|FAILED-OBLIGATION' /tmp/patchscr_$$_$p.txt | head -4 | cut -c1-260)"
   rm -f /tmp/patchscr_$$_$p.txt
 done
-rm -rf $S
+rm -rf $S; [ -z "$VERIF_WORK" ] && rm -rf $W
